@@ -33,12 +33,23 @@ func ttlCase(w *W, idx int) {
 	caseID := fmt.Sprintf("E7:ttl:interval=%s:%d", interval, idx)
 	w.Begin(idx, caseID)
 	rng := rngFor(w.Seed, 70, idx)
-	lg := &recLogger{}
+	lg := &recLogger{yieldEvery: 2} // a writer that is slow now and then
 	c := column.NewCollection(column.Options{Capacity: 1000, Vacuum: interval, Writer: lg})
 	defer c.Close()
 	c.CreateColumn("m", column.ForInt64())
 	c.CreateColumn("s", column.ForString())
 	c.CreateColumn("id", column.ForInt64()) // identity of a tracked row: offsets of expired rows are reused by later inserts
+	// the replica is fed the stream in emission order, in steps, from the start
+	replica := column.NewCollection(column.Options{Capacity: 1000, Vacuum: time.Hour})
+	replica.CreateColumn("m", column.ForInt64())
+	replica.CreateColumn("s", column.ForString())
+	replica.CreateColumn("id", column.ForInt64())
+	defer replica.Close()
+	feed := func() {
+		for _, cm := range lg.take() {
+			replica.Replay(cm)
+		}
+	}
 	var passes int64
 	hook := func(point string, cc *column.Collection, block uint32) {
 		if cc == c && point == "vacuum.pass" {
@@ -173,28 +184,48 @@ func ttlCase(w *W, idx int) {
 		r.mustLive = true
 		extended = append(extended, r)
 	}
-	var extWG sync.WaitGroup
+	// in groups of four started together on one row; after each group the primary is quiescent on that
+	// row: the replica, fed the stream so far, must report the same deadline, and it must be the sum
 	var extSum [4]int64
-	for gi := 0; gi < 4; gi++ {
-		gi := gi
-		extWG.Add(1)
-		go func() {
-			defer extWG.Done()
-			rr := rngFor(w.Seed, 72, idx, gi)
-			for n := 0; n < 150; n++ {
-				ri := rr.Intn(len(extended))
+	groups := 0
+	for n := 0; n < 150; n++ {
+		ri := n % len(extended)
+		start := make(chan struct{})
+		var extWG sync.WaitGroup
+		for gi := 0; gi < 4; gi++ {
+			gi := gi
+			extWG.Add(1)
+			go func() {
+				defer extWG.Done()
+				rr := rngFor(w.Seed, 72, idx, gi, n)
 				d := time.Duration(1+rr.Intn(1000)) * time.Microsecond
+				<-start
 				c.Query(func(txn *column.Txn) error {
 					return txn.QueryAt(extended[ri].off, func(column.Row) error { txn.TTL().Extend(d); return nil })
 				})
 				atomic.AddInt64(&extSum[ri], int64(d))
-			}
-		}()
+			}()
+		}
+		close(start)
+		extWG.Wait()
+		feed()
+		groups++
+		want := extended[ri].deadline + atomic.LoadInt64(&extSum[ri])
+		pv, pok := readExpire(c, extended[ri].off)
+		rv, rok := readExpire(replica, extended[ri].off)
+		if !pok || pv != want {
+			fail(fmt.Sprintf("row %d: after %d groups of four concurrent extensions the deadline reads (%d,%v), base + committed extensions = %d", extended[ri].off, groups, pv, pok, want))
+			break
+		}
+		if rok != pok || rv != pv {
+			fail(fmt.Sprintf("row %d: after a group of four concurrent extensions (all acknowledged, stream replayed in emission order) the replica reports deadline (%d,%v), the primary (%d,%v): difference %s", extended[ri].off, rv, rok, pv, pok, time.Duration(pv-rv)))
+			break
+		}
 	}
-	extWG.Wait()
 	for i, r := range extended {
 		r.deadline += atomic.LoadInt64(&extSum[i])
 	}
+	w.Stat("replica_deadline_comparisons_after_concurrent_extensions", int64(groups))
 	w.Stat("concurrent_extensions", 600)
 	// the stored deadline must be exactly what the API reported
 	for _, r := range rows {
@@ -317,17 +348,10 @@ func ttlCase(w *W, idx int) {
 	restored.CreateColumn("s", column.ForString())
 	restored.CreateColumn("id", column.ForInt64())
 	defer restored.Close()
-	replica := column.NewCollection(column.Options{Capacity: 1000, Vacuum: time.Hour})
-	replica.CreateColumn("m", column.ForInt64())
-	replica.CreateColumn("s", column.ForString())
-	replica.CreateColumn("id", column.ForInt64())
-	defer replica.Close()
 	if err := restored.Restore(bytes.NewReader(buf.Bytes())); err != nil {
 		fail("Restore failed: " + err.Error())
 	}
-	for _, cm := range lg.take() {
-		replica.Replay(cm)
-	}
+	feed()
 	compared := 0
 	for _, r := range rows {
 		if !r.mustLive || !r.judged {
